@@ -144,7 +144,13 @@ def run(ctx):
         rv, dfn = dec.rv, dec.host
         hs = [x for x in walk(rv) if x.kind == "call" and (x.d["term"].get("resolved") or "") == "utils::base64_hash"]
         okd = bool(hs) and must(rv, lambda x: x in hs) and all(must(h.kids[0], lambda y: y.kind == "call" and (y.d["term"].get("resolved") or "") == "utils::generate_salt" and dec.fresh(y)) for h in hs)
-        if okd:
+        nv = common.not_verbatim(rv, lambda x: x in hs) if okd else None
+        if nv is not None:
+            # the value pushed is the digest as base64_hash returned it: a truncation / re-encoding / prefix (`chars().take(22)`, a slice,
+            # `format!("d{}")`) makes decoys recognisable next to the 43-character digests of real disclosures
+            ctx.finding("C12.D4", dfn, "decoy-form", "a decoy digest is not the value base64_hash returned but a transformation of it (%s): decoys become distinguishable from real digests"
+                        % nv.d["term"].get("name"), line=nv.d["term"].get("line"))
+        elif okd:
             ctx.ok("C12.D4", dfn, "decoy-form", "decoy = base64_hash(generate_salt()): same digest function as real disclosures, fresh random input")
         else:
             ctx.finding("C12.D4", dfn, "decoy-form", "a decoy is not base64_hash of a fresh generate_salt(): %s" % vstr(rv, 5))
